@@ -83,9 +83,22 @@ def _exec_chunk(items):
         except AssertionError as ex:
             out.append({'tid': it['tid'], 'skip': 'printer: %s' % ex})
             continue
-        result, links, _ = pj.parse_and_project(text, allow=it['allow'], links=it['want'] == 'links')
-        out.append({'tid': it['tid'], 'doc': it['doc'], 'allow': it['allow'], 'want': it['want'],
-                    'result': result, 'links': links, '_text': text})
+        result, links, db = pj.parse_and_project(text, allow=it['allow'], links=it['want'] == 'links')
+        rec = {'tid': it['tid'], 'doc': it['doc'], 'allow': it['allow'], 'want': it['want'],
+               'result': result, 'links': links, 'obs': {'off': {'kind': 'none'}, 'same_dbml': True, 'same_sql': True},
+               '_text': text}
+        if it['want'] == 'props':
+            # the same text under the other option value, and whether the renderings agree
+            off, _, db2 = pj.parse_and_project(text, allow=False, links=False)
+            rec['obs']['off'] = off
+            if db is not None and db2 is not None:
+                for kind in ('dbml', 'sql'):
+                    try:
+                        rec['obs']['same_' + kind] = getattr(db, kind) == getattr(db2, kind)
+                    except Exception as ex:
+                        rec['obs']['same_' + kind] = False
+                        rec['obs']['render_error'] = '%s: %s' % (kind, type(ex).__name__)
+        out.append(rec)
     return out
 
 
